@@ -30,7 +30,11 @@ Inductive mstmt :=
 | MCallMacro (name : Z)                           (* {{ name() }} *)
 | MCallBlock (name : Z) (body : list mstmt)       (* {% call name() %} body {% endcall %} *)
 | MCaller                                         (* {{ caller() }} inside a macro *)
-| MInclude (t : Z).                               (* {% include "<name of template t>" %} *)
+| MInclude (t : Z)                                (* {% include "<name of template t>" %} *)
+| MFail                                           (* {{ 1 // 0 }}: a statement that fails at run time *)
+| MAttempt (name : Z)                             (* {{ attempt(name) }}: a host function that calls the macro value and returns "n/a" when the call fails *)
+| MAttemptCaller                                  (* {{ attempt(caller) }} inside a macro *)
+| MBlock (name : Z) (body : list mstmt).          (* {% block name %} body {% endblock %} *)
 
 Inductive msig := SNormal | SBreak | SContinue.
 
@@ -58,6 +62,9 @@ Definition render_str (m : emode) (safe : bool) (s : list Z) : list Z :=
   if safe then s else match m with MNone => s | MHtml => html_escape s | MJson => json_str s end.
 
 Definition marker (id : Z) (m : emode) : list Z := [91] ++ show_int id ++ [58] ++ render_str m false datum ++ [93].
+
+(* what the host function `attempt` returns for a failed call: the plain (unsafe) string n/a *)
+Definition fallback : list Z := [110; 47; 97].
 
 Definition is_none (m : emode) : bool := match m with MNone => true | _ => false end.
 
@@ -141,9 +148,41 @@ Fixpoint mexec (fuel : nat) (initial m : emode) (caller : option (list mstmt)) (
     | MInclude t =>
         match nth_error tpls (Z.to_nat t) with
         | Some (mt, body) =>
-            bind (mexec_list_with (fun mm e st => mexec fuel mt mm None None e st) mt empty_env body) (fun '(_, o, _) => Ok (env, o, SNormal))
+            match mexec_list_with (fun mm e st => mexec fuel mt mm None None e st) mt empty_env body with
+            | Ok (_, o, _) => Ok (env, o, SNormal)
+            | Err _ => Err E_BadInclude               (* perform_include wraps every error of the included template *)
+            | Panic => Panic
+            | OutOfGas => OutOfGas
+            end
         | None => Err E_TemplateNotFound
         end
+    | MFail => Err E_InvalidOperation
+    (* an error swallowed by the host: the macro's partial output is gone with its buffer, the fallback is printed like
+       any unsafe string - and the mode is what it was: it is not part of any state the failed call could have left behind *)
+    | MAttempt name =>
+        match assoc name (e_macros env) with
+        | Some body =>
+            match invoke None body with
+            | Ok (_, o, _) => Ok (env, o, SNormal)
+            | Err _ => Ok (env, render_str m false fallback, SNormal)
+            | Panic => Panic
+            | OutOfGas => OutOfGas
+            end
+        | None => Ok (env, render_str m false fallback, SNormal)      (* calling an undefined value fails too *)
+        end
+    | MAttemptCaller =>
+        match caller with
+        | Some cb =>
+            match invoke None cb with
+            | Ok (_, o, _) => Ok (env, o, SNormal)
+            | Err _ => Ok (env, render_str m false fallback, SNormal)
+            | Panic => Panic
+            | OutOfGas => OutOfGas
+            end
+        | None => Ok (env, render_str m false fallback, SNormal)
+        end
+    (* a block renders in place, in a scope of its own, under the mode active where it stands *)
+    | MBlock _ body => bind (invoke None body) (fun '(_, o, _) => Ok (env, o, SNormal))
     end
   end.
 
@@ -154,6 +193,42 @@ Definition mexec_list (fuel : nat) (initial : emode) (caller : option (list mstm
 Definition run_modes (fuel : nat) : outcome (list Z) :=
   match tpls with
   | (m0, body) :: _ => bind (mexec_list fuel m0 None None m0 empty_env body) (fun '(_, o, _) => Ok o)
+  | [] => Err E_TemplateNotFound
+  end.
+
+(* ---- calls on the State a finished render leaves behind (State::call_macro / State::render_block) ---- *)
+Fixpoint find_block (name : Z) (s : mstmt) {struct s} : option (list mstmt) :=
+  let in_list := fix go (l : list mstmt) : option (list mstmt) :=
+      match l with
+      | [] => None
+      | x :: r => match find_block name x with Some b => Some b | None => go r end
+      end in
+  match s with
+  | MBlock n body => if n =? name then Some body else in_list body
+  | MAuto _ body | MLoop _ body | MWith body | MCapture _ body | MMacro _ body | MCallBlock _ body => in_list body
+  | _ => None
+  end.
+
+Inductive mquery := QMacro (name : Z) | QBlock (name : Z).
+
+(* every call is a function of the finished render alone: the top-level macros it defined, the blocks of the template and
+   the template's initial mode - NOT of earlier calls on that State, failed or not *)
+Definition run_query (fuel : nat) (q : mquery) : outcome (list Z) :=
+  match tpls with
+  | (m0, body) :: _ =>
+      bind (mexec_list fuel m0 None None m0 empty_env body) (fun '(env, _, _) =>
+      match q with
+      | QMacro name =>
+          match assoc name (e_macros env) with
+          | Some mb => bind (mexec_list fuel m0 None None m0 empty_env mb) (fun '(_, o, _) => Ok o)
+          | None => Err E_UnknownFunction
+          end
+      | QBlock name =>
+          match (fix go (l : list mstmt) := match l with [] => None | x :: r => match find_block name x with Some b => Some b | None => go r end end) body with
+          | Some bb => bind (mexec_list fuel m0 None None m0 empty_env bb) (fun '(_, o, _) => Ok o)
+          | None => Err E_UnknownBlock
+          end
+      end)
   | [] => Err E_TemplateNotFound
   end.
 End Modes.
